@@ -23,6 +23,7 @@ CONSTANTS
   MinSteps = 3
   MaxSteps = 3
   RationalOnly = FALSE
+  NeedDt = FALSE
   BindLeaves = FALSE
   EmitOn = TRUE
   NameSeq <- cNoSeq
